@@ -86,3 +86,9 @@ def probe_known(ctx, finding):
         return replay(ctx, doc)
     except Exception:  # noqa
         return False
+
+
+# the long-lived process: the same probe session after earlier sessions of the same server (props/history.py)
+from props import history as _history  # noqa: E402
+
+correspondence, search, replay = _history.attach(PID, correspondence, search, replay, pasts=['ended-inside-a-multi-byte-character', 'listing-failed-half-way', 'commands-before-login'])
